@@ -52,6 +52,18 @@ type TEnv struct {
 	ForceQuote map[string]bool
 }
 
+func (env *TEnv) hasBinding(name string) bool {
+	if env == nil {
+		return false
+	}
+	for _, b := range env.Bindings {
+		if b.Name == name {
+			return true
+		}
+	}
+	return false
+}
+
 // id spells a column name, quoting it when a binding shadows it.
 func (env *TEnv) id(name string) Ident {
 	id := ColIdent(name)
@@ -499,7 +511,7 @@ func (g *G) TypedOp(kind string, s Schema, env *TEnv, joinDepth int) (Op, Schema
 			return &Binary{Op: "==", X: sideRef("$left", l.Name), Y: sideRef("$right", r.Name)}
 		}
 		switch {
-		case lk && rk && !env.ForceQuote["k"] && g.n("barekey", 2) == 0:
+		case lk && rk && !env.hasBinding("k") && g.n("barekey", 2) == 0:
 			conds = append(conds, ID("k"))
 		case len(li) > 0 && len(ri) > 0:
 			conds = append(conds, eq())
@@ -507,7 +519,12 @@ func (g *G) TypedOp(kind string, s Schema, env *TEnv, joinDepth int) (Op, Schema
 			return nil, s, false
 		}
 		for len(conds) < 3 && g.n("extracond", 3) == 0 {
-			switch g.n("extrakind", 4) {
+			switch g.n("extrakind", 5) {
+			case 4:
+				// a comparison across the sides below `not`: there NULL and
+				// false are not the same thing
+				l, r := pickFrom(g, "lcol", li), pickFrom(g, "rcol", ri)
+				conds = append(conds, &Call{Func: "not", Args: []Expr{&Binary{Op: pickFrom(g, "notcross", []string{"!=", "<", ">="}), X: sideRef("$left", l.Name), Y: sideRef("$right", r.Name)}}})
 			case 0:
 				conds = append(conds, eq())
 			case 1:
